@@ -81,7 +81,8 @@ public:
    }
 
    // start states: s of every length around the inline capacity (inline where it fits, and forced onto the heap), crossed with operand values for t
-   void BuildStarts(bool thorough)
+   // all=false: the 42 quick starts; all=true: 70 starts of which the quick ones are a PREFIX
+   void BuildStarts(bool all)
    {
       const uint32 lens[] = { 0, 1, CAP - 2, CAP - 1, CAP, CAP + 1, 2 * CAP };
       std::vector<Start> ss;
@@ -89,9 +90,8 @@ public:
       for (size_t i = 0; i < 5; i++) { Start a = { Gen(lens[i], 0), "", true }; ss.push_back(a); }                  // lengths <= cap forced into a 17-byte heap block
       { Start a = { Gen(CAP - 1, 1), "", false }; ss.push_back(a); } { Start a = { Gen(CAP + 1, 1), "", false }; ss.push_back(a); }   // second byte pattern: leading/trailing blanks, upper case
       std::vector<Str> ts; ts.push_back("a"); ts.push_back(Gen(CAP - 2, 0)); ts.push_back(""); ts.push_back("%1"); ts.push_back(Gen(CAP + 1, 0));
-      // the quick start set (first three operand values) is a PREFIX of the thorough one, so that a start index in a replay file means the same in both tiers
       for (size_t i = 0; i < ss.size(); i++) for (size_t j = 0; j < 3; j++) { Start a = ss[i]; a.t = ts[j]; starts.push_back(a); }
-      if (thorough) for (size_t i = 0; i < ss.size(); i++) for (size_t j = 3; j < ts.size(); j++) { Start a = ss[i]; a.t = ts[j]; starts.push_back(a); }
+      if (all) for (size_t i = 0; i < ss.size(); i++) for (size_t j = 3; j < ts.size(); j++) { Start a = ss[i]; a.t = ts[j]; starts.push_back(a); }
    }
    int NumStarts() const { return (int)starts.size(); }
    std::string StartName(int i) const { return "s=" + Esc(starts[i].s) + (starts[i].heap ? " heap" : " natural") + " t=" + Esc(starts[i].t); }
@@ -116,7 +116,17 @@ public:
 
    // ShrinkToFit of a heap String whose length is exactly the inline capacity is executed in a forked child first: on the pinned tree it dies in
    // UBSan (String.h ShortStringData::SetBuffer writes _smallBuffer[15] of a char[15]); in-process that would take the whole exploration worker down.
+   // The outcome depends on (operation, length) only, so it is observed once per (operation, length) in every exploration worker process (a fork of a
+   // worker that carries the whole visited set is expensive) and in every --replay process.
    static bool DiesInChild(const Op & o, const Str & s0, const Str & t0, Str & what)
+   {
+      static std::map<std::pair<int, size_t>, Str> memo;
+      const std::pair<int, size_t> mk(o.p1, s0.size());
+      std::map<std::pair<int, size_t>, Str>::const_iterator it = memo.find(mk);
+      if (it != memo.end()) { what = it->second; return !what.empty(); }
+      const bool r = DiesInChildAux(o, s0, t0, what); memo[mk] = r ? what : Str(); return r;
+   }
+   static bool DiesInChildAux(const Op & o, const Str & s0, const Str & t0, Str & what)
    {
       fflush(stdout); fflush(stderr);
       pid_t pid = fork();
@@ -140,7 +150,7 @@ public:
 #define C17_PRE (" [before: s=" + Esc(s0) + verif::Fmt(" %s/%u", sHeap ? "heap" : "inline", sAlloc) + ", t=" + Esc(t0) + verif::Fmt(" %s/%u", tHeap ? "heap" : "inline", tAlloc) + "]")
 #define C17_FAIL(k, text) do { msg = o.name + ": " + (text) + C17_PRE; key = (k); return seqx::SEQX_VIOLATION; } while (0)
 
-      if (o.k == K_SHRINK && n == CAP) { Str what; if (DiesInChild(o, s0, t0, what)) C17_FAIL("fatal:" + what + ":" + o.name + "(heap,len=" + std::to_string(n) + ")", "process death (" + what + "; 88=UBSan, 87=ASan) when applied to a heap-allocated String with these bytes"); }
+      if (o.k == K_SHRINK && n == CAP) { Str what; if (DiesInChild(o, s0, t0, what)) C17_FAIL("fatal:" + what + ":" + o.name + "(heap,len=" + std::to_string(n) + ")", "process death (" + what + "; 88=UBSan, 87=ASan) observed in a forked child when applied to a heap-allocated String of this length"); }
 
       // ---- primary execution on the objects with their history-given storage
       Out po; RunBound(o, w.s, w.t, po);
@@ -241,10 +251,11 @@ int main(int argc, char ** argv)
    verif::Result res; res.harness = "C17_string";
    if (CAP != String::GetMaxShortStringLength() || CAP < 8) { fprintf(stderr, "unexpected inline capacity\n"); return 3; }
    static const char * what = "assign/SetCstr/SetFromString incl. from itself and from pointers into its own buffer, +=/Prepend/Insert with String, C string, char and SELF, -=, Replace incl. self as needle/replacement, Trimmed, PaddedBy, ToUpperCase, Reverse, Truncate, Arg(int/String/self), "
-                             "Prealloc/ShrinkToFit/SwapContents/move/Clear/ClearAndFlush, Unflatten incl. from its own buffer; 24 read-only bundles covering constructors, operator+/-, With*/Substring/WithReplacements forms, the whole search and compare families with from-indices {0,1,mid,last,len,len+1}, Arg forms, numeric suffix helpers, prefix/suffix helpers, Flatten/Unflatten)";
+                             "Prealloc/ShrinkToFit/SwapContents/move/Clear/ClearAndFlush, Unflatten incl. from its own buffer; 24 read-only bundle operations covering constructors, operator+/-, With*/Substring/WithReplacements forms, the whole search and compare families with from-indices {0,1,mid,last,len,len+1}, Arg forms, numeric suffix helpers, prefix/suffix helpers, Flatten/Unflatten)";
    const bool thorough = args.Thorough();
    int depth = thorough ? 4 : 3;
    if (args.kv.count("depth")) depth = atoi(args.kv["depth"].c_str());
+   // replays always use the full start list: the quick starts are a prefix of it, so a start index means the same in both tiers
    StringModel model; model.BuildStarts(thorough || args.kv.count("allstarts") || !args.replay.empty());
    seqx::Explorer<StringModel> ex(model, args, res, "string-vs-bytestring");
    if (!args.replay.empty()) { verif::ReplayDoc d; if (!d.Load(args.replay)) { fprintf(stderr, "cannot read %s\n", args.replay.c_str()); return 3; } return ex.ReplayFile(d); }
